@@ -43,7 +43,17 @@ func tokenize(s string) []string {
 			i++
 		}
 	}
-	return out
+	// spelling-neutral increments: `x += 1` and `x -= 1` read as `x++` / `x--`
+	var norm []string
+	for k := 0; k < len(out); k++ {
+		if k+2 < len(out) && (out[k] == "+" || out[k] == "-") && out[k+1] == "=" && out[k+2] == "1" && (k+3 >= len(out) || out[k+3] != ".") {
+			norm = append(norm, out[k], out[k])
+			k += 2
+			continue
+		}
+		norm = append(norm, out[k])
+	}
+	return norm
 }
 
 func isIdentTok(t string) bool {
